@@ -161,7 +161,7 @@ class C01(Prop):
     rule = ("random well-formed ordinal instances (soc/soi/toc/toi; ids 1..m, shifted or sparse up to 3 digits; ties "
             "first/last/single class; multiplicities up to 120 with ties in the sort key; names and metadata over an "
             "alphabet with ':', ',', braces, '#', non-ASCII, '__1', empty strings); non-trivial = at least 2 orders")
-    budget = {"quick": 300, "thorough": 3000}
+    budget = {"quick": 300, "thorough": 10000}
     anchors = [("preflibtools.instances.preflibinstance.ordinal", "OrdinalInstance.parse"),
                ("preflibtools.instances.preflibinstance.ordinal", "OrdinalInstance.write"),
                ("preflibtools.instances.preflibinstance.instance", "PrefLibInstance.parse_metadata"),
